@@ -526,3 +526,64 @@ func TestProp_C13_manager(t *testing.T) {
 		k.Done()
 	})
 }
+
+// ---------------------------------------------------------------------------------------------
+// C13, last clause: a verify-only connection disconnects as soon as verification succeeds.
+
+const ruleC13vo = "a verify-only BitcoinNode (with or without a TxManager, with or without an application header handler) is run against the scripted peer, which completes the handshake, optionally sends a few harmless messages, answers the verification request with the BSV split header and then keeps sending what a normal peer sends (addr, inv, headers the repository would accept, tx, ping); oracle: the node reports Verified, hangs up within 3 s of the reply and sends no getheaders/getdata/getaddr after the verification request (what the peer sends after it has been verified may or may not still be handled while the node stops: the statement does not say); non-trivial = TxManager present or messages sent after the reply; distinct = (txManager, headerHandler, message kinds)"
+
+func TestProp_C13_verifyonly(t *testing.T) {
+	col := evid.For("C13", "verifyonly", ruleC13vo)
+	rapid.Check(t, func(t *rapid.T) {
+		k := col.NewCase()
+		ctx := vt.Ctx()
+		withTxm := rapid.Bool().Draw(t, "txManager")
+		withHH := rapid.Bool().Draw(t, "headerHandler")
+		log := spy.NewLog()
+		var txm *bitcoin_reader.TxManager
+		if withTxm {
+			txm = bitcoin_reader.NewTxManager(time.Hour)
+			txm.SetTxProcessor(spy.Processor{L: log})
+			txm.SetTxSaver(spy.Saver{L: log})
+			txDone := make(chan error, 1)
+			go func() { txDone <- txm.Run(ctx) }()
+			defer func() {
+				txm.Stop(ctx)
+				<-txDone
+			}()
+		}
+		s := Start(t, Opts{VerifyOnly: true, TxManager: txm, HeaderHandler: withHH})
+		defer s.Finish(bound)
+		s.Handshake(t)
+		ghBefore := s.Peer.Count("getheaders")
+		s.Peer.Send(p2p.Headers([]model.RawHeader{bsvHeader()}))
+		n := rapid.IntRange(0, 5).Draw(t, "after")
+		var kinds []string
+		for i := 0; i < n; i++ {
+			m := genPreMsg(t, i, 2, true)
+			if m.kind == "version" || m.kind == "verack" {
+				continue
+			}
+			kinds = append(kinds, m.kind)
+			if err := s.Peer.Send(m.frame); err != nil {
+				break
+			}
+		}
+		closed := s.Peer.WaitClosed(closeBound)
+		k.Op("txm=%v hh=%v after=%v", withTxm, withHH, kinds)
+		if !closed {
+			t.Fatalf("verify-only node (txManager=%v headerHandler=%v) did not hang up within %s of the verification reply; messages sent after it: %v", withTxm, withHH, closeBound, kinds)
+		}
+		if !s.Node.Verified() {
+			t.Fatalf("verify-only node hung up without reporting the peer verified")
+		}
+		if c := s.Peer.Count("getheaders"); c > ghBefore {
+			t.Fatalf("verify-only node sent %d more getheaders after the verification request (%v)", c-ghBefore, kinds)
+		}
+		if c := s.Peer.Count("getdata") + s.Peer.Count("getaddr"); c != 0 {
+			t.Fatalf("verify-only node sent getdata/getaddr (%d) (%v)", c, kinds)
+		}
+		k.NonTrivial = withTxm || len(kinds) > 0
+		k.Done()
+	})
+}
